@@ -19,14 +19,30 @@ open MantraDex
 def effTol (ms : Option Nat) : Nat := min (ms.getD C.DEFAULT_SLIPPAGE) C.MAX_ALLOWED_SLIPPAGE
 
 theorem default_and_cap : C.DEFAULT_SLIPPAGE * 100 = ONE18 ∧ C.MAX_ALLOWED_SLIPPAGE * 2 = ONE18 := by
-  sorry
+  decide
+
+theorem ONE18_le_U256 : ONE18 ≤ U256_MAX := by decide
+
+theorem ratio_le_one {a b : Nat} (h : a ≤ b) : a * ONE18 / b ≤ ONE18 := by
+  rw [Nat.mul_comm]; exact mul_div_le_of_le h
 
 /-- without a belief price: accepted ⇔ slippage/(return+slippage) ≤ tolerance (18-digit floor) -/
 theorem max_slippage_accept_iff {ms : Option Nat} {offer ret slip : Nat}
     (hfit : ret + slip ≤ U128_MAX) (hpos : ret + slip ≠ 0) :
     assertMaxSlippage none ms offer ret slip = .ok () ↔
       slip * ONE18 / (ret + slip) ≤ effTol ms := by
-  sorry
+  have hr : slip * ONE18 / (ret + slip) ≤ U256_MAX :=
+    Nat.le_trans (ratio_le_one (Nat.le_add_left _ _)) ONE18_le_U256
+  unfold assertMaxSlippage effTol
+  simp only [bind_ok, fit_ok, orPanic_ok, decFromRatio_ok]
+  constructor
+  · rintro ⟨tot, ⟨_, rfl⟩, ratio, ⟨_, _, rfl⟩, h⟩
+    split at h
+    · simp at h
+    · omega
+  · intro h
+    refine ⟨_, ⟨hfit, rfl⟩, _, ⟨hpos, hr, rfl⟩, ?_⟩
+    rw [if_neg (Nat.not_lt.2 h)]; rfl
 
 /-- with a belief price: accepted ⇔ the return is at least the expected amount offer/belief, or
     falls short of it by at most the tolerance -/
@@ -36,20 +52,103 @@ theorem belief_accept_iff {bp : Nat} {ms : Option Nat} {offer ret slip : Nat}
     assertMaxSlippage (some bp) ms offer ret slip = .ok () ↔
       let expected := offer * ONE18 * (ONE18 * ONE18 / bp) / ONE18 / ONE18
       expected ≤ ret ∨ (expected - ret) * ONE18 / expected ≤ effTol ms := by
-  sorry
+  unfold assertMaxSlippage effTol decInv decFloor
+  simp only [if_neg hbp, bind_ok, fit_ok, orPanic_ok, decFromRatio_ok, decMul_ok, pure_ok]
+  generalize hE : offer * ONE18 * (ONE18 * ONE18 / bp) / ONE18 = E at hm ⊢
+  constructor
+  · rintro ⟨inv, rfl, o18, ⟨_, rfl⟩, e, ⟨_, he⟩, h⟩
+    rw [hE] at he; subst he
+    split at h
+    · right
+      simp only [bind_ok, orPanic_ok, decFromRatio_ok] at h
+      obtain ⟨ratio, ⟨_, _, rfl⟩, h⟩ := h
+      split at h
+      · simp at h
+      · omega
+    · left; omega
+  · intro h
+    refine ⟨_, rfl, _, ⟨ho, rfl⟩, E, ⟨by rw [hE]; exact hm, hE.symm⟩, ?_⟩
+    split
+    · next hlt =>
+      simp only [bind_ok, orPanic_ok, decFromRatio_ok]
+      have hne : E / ONE18 ≠ 0 := by omega
+      refine ⟨_, ⟨hne, Nat.le_trans (ratio_le_one (Nat.sub_le _ _)) ONE18_le_U256, rfl⟩, ?_⟩
+      rcases h with h | h
+      · omega
+      · rw [if_neg (Nat.not_lt.2 h)]; rfl
+    · rfl
+
+/-- the check with the effective tolerance made explicit -/
+def amsCore (belief : Option Nat) (t : Nat) (offer ret slippage : Nat) : R Unit := do
+  match belief with
+  | some bp =>
+    let inv ← match decInv bp with | some i => pure i | none => .error .invalidInput
+    let o18 ← fit U256_MAX (offer * ONE18) .panic
+    let e ← decMul U256_MAX o18 inv
+    let expected := decFloor e
+    let sl := expected - ret
+    if ret < expected then
+      let ratio ← orPanic (decFromRatio U256_MAX sl expected)
+      if ratio > t then .error .slippage else pure ()
+    else pure ()
+  | none =>
+    let tot ← fit U128_MAX (ret + slippage) .panic
+    let ratio ← orPanic (decFromRatio U256_MAX slippage tot)
+    if ratio > t then .error .slippage else pure ()
+
+theorem ams_eq_core (b ms : Option Nat) (offer ret slip : Nat) :
+    assertMaxSlippage b ms offer ret slip = amsCore b (effTol ms) offer ret slip := rfl
+
+theorem gate_mono {x t1 t2 : Nat} (hle : t1 ≤ t2)
+    (h : (if x > t1 then (.error .slippage : R Unit) else pure ()) = .ok ()) :
+    (if x > t2 then (.error .slippage : R Unit) else pure ()) = .ok () := by
+  split at h
+  · simp at h
+  · rw [if_neg (by omega)]; rfl
+
+theorem amsCore_mono {b : Option Nat} {t1 t2 offer ret slip : Nat} (hle : t1 ≤ t2)
+    (h : amsCore b t1 offer ret slip = .ok ()) : amsCore b t2 offer ret slip = .ok () := by
+  unfold amsCore at h ⊢
+  cases b with
+  | none =>
+    simp only [bind_ok] at h ⊢
+    obtain ⟨tot, h1, ratio, h2, h3⟩ := h
+    exact ⟨tot, h1, ratio, h2, gate_mono hle h3⟩
+  | some bp =>
+    simp only at h ⊢
+    cases hd : decInv bp with
+    | none => rw [hd] at h; simp [bind, Except.bind] at h
+    | some i =>
+    rw [hd] at h
+    simp only [bind_ok] at h ⊢
+    obtain ⟨inv, h0, o18, h1, e, h2, h3⟩ := h
+    refine ⟨inv, h0, o18, h1, e, h2, ?_⟩
+    split at h3
+    · next hlt =>
+      rw [if_pos hlt]
+      simp only [bind_ok] at h3 ⊢
+      obtain ⟨ratio, h4, h5⟩ := h3
+      exact ⟨ratio, h4, gate_mono hle h5⟩
+    · next hlt => rw [if_neg hlt]; rfl
 
 /-- a larger tolerance never rejects what a smaller one accepts (swaps and routes) -/
 theorem tolerance_monotone_swap {b : Option Nat} {t1 t2 : Nat} {offer ret slip : Nat} (hle : t1 ≤ t2)
     (h : assertMaxSlippage b (some t1) offer ret slip = .ok ()) :
     assertMaxSlippage b (some t2) offer ret slip = .ok () := by
-  sorry
+  rw [ams_eq_core] at h ⊢
+  exact amsCore_mono (min_mono_left hle) h
 
 /-- a tolerance above 50 % behaves exactly like 50 % (capped, not refused) -/
 theorem tolerance_capped {b : Option Nat} {t : Nat} {offer ret slip : Nat}
     (ht : C.MAX_ALLOWED_SLIPPAGE ≤ t) :
     assertMaxSlippage b (some t) offer ret slip =
       assertMaxSlippage b (some C.MAX_ALLOWED_SLIPPAGE) offer ret slip := by
-  sorry
+  rw [ams_eq_core, ams_eq_core]
+  have : effTol (some t) = effTol (some C.MAX_ALLOWED_SLIPPAGE) := by
+    unfold effTol
+    simp only [Option.getD_some]
+    rw [Nat.min_eq_right ht, Nat.min_self]
+  rw [this]
 
 /-- a routed swap that delivers less than `minimum_receive` fails as a whole -/
 theorem min_receive_enforced {s s' : PmState} {env : PmEnv} {sender : Addr} {funds : List Coin}
@@ -57,13 +156,89 @@ theorem min_receive_enforced {s s' : PmState} {env : PmEnv} {sender : Addr} {fun
     (h : execSwapOps s env sender funds ops (some m) recv ms = .ok (s', resp)) :
     ∃ first amount out fees, ops.head? = some first ∧
       routeHops s ms ops ⟨first.tokenIn, amount⟩ [] = .ok (s', out, fees) ∧ m ≤ out.amount := by
-  sorry
+  unfold execSwapOps at h
+  cases hl : ops.getLast? with
+  | none => rw [hl] at h; simp [bind, Except.bind] at h
+  | some last =>
+  cases hf : ops.head? with
+  | none => rw [hl, hf] at h; simp [bind, Except.bind, pure, Except.pure] at h
+  | some first =>
+  rw [hl, hf] at h
+  simp only [bind_ok, pure_ok] at h
+  obtain ⟨_, rfl, _, rfl, amount, hamt, _, _, ⟨s1, out, fees⟩, hroute, h⟩ := h
+  dsimp only at h
+  split at h
+  · simp [bind, Except.bind] at h
+  · next hlt =>
+    simp only [pure_ok, Prod.mk.injEq] at h
+    obtain ⟨rfl, _⟩ := h
+    exact ⟨_, amount, out, fees, rfl, hroute, Nat.le_of_not_lt hlt⟩
 
 /-- deposit tolerance above 100 % is refused -/
 theorem deposit_tolerance_above_one_refused {tol : Nat} {deps pa : List Coin} {pt : PoolType}
     (hnz : ∀ c ∈ pa, c.amount ≠ 0) (ht : ONE18 < tol) :
     assertSlippageTolerance (some tol) deps pa pt = .error .invalidInput := by
-  sorry
+  unfold assertSlippageTolerance
+  have hany : pa.any (·.amount == 0) = false := by
+    rw [List.any_eq_false]
+    intro c hc
+    simpa using hnz c hc
+  rw [hany]
+  simp only [Bool.false_eq_true, if_false]
+  rw [if_pos ht]
+
+theorem sortCoins_pair {n0 n1 : Denom} (hlt : n0 < n1) (p0 p1 : Nat) :
+    sortCoins [⟨n0, p0⟩, ⟨n1, p1⟩] = [⟨n0, p0⟩, ⟨n1, p1⟩] := by
+  have h : ¬ n1 < n0 := String.lt_asymm hlt
+  simp [sortCoins, sortCoins.ins, h]
+
+theorem U128_mul_ONE18_le : U128_MAX * ONE18 ≤ U256_MAX := by decide
+
+theorem ratio_fits {n d : Nat} (hn : n ≤ U128_MAX) : n * ONE18 / d ≤ U256_MAX :=
+  Nat.le_trans (Nat.div_le_self _ _)
+    (Nat.le_trans (Nat.mul_le_mul_right _ hn) U128_mul_ONE18_le)
+
+theorem decFromRatio_eq {m n d : Nat} (hd : d ≠ 0) (hb : n * ONE18 / d ≤ m) :
+    decFromRatio m n d = .ok (n * ONE18 / d) := by
+  rw [decFromRatio_ok]; exact ⟨hd, hb, rfl⟩
+
+theorem decMul_eq {m a b : Nat} (hb : a * b / ONE18 ≤ m) :
+    decMul m a b = .ok (a * b / ONE18) := by
+  rw [decMul_ok]; exact ⟨hb, rfl⟩
+
+theorem orPanic_okv {α : Type} (x : α) : orPanic (.ok x : R α) = .ok x := rfl
+theorem ok_bind {α β : Type} (x : α) (f : α → R β) : ((.ok x : R α) >>= f) = f x := rfl
+
+/-- the constant-product check as a closed expression (nothing can overflow under the bounds) -/
+theorem cp_check_eq {tol d0 d1 p0 p1 : Nat} {n0 n1 : Denom} (hlt : n0 < n1)
+    (ht : tol ≤ ONE18) (hd0 : d0 ≠ 0) (hd1 : d1 ≠ 0) (hp0 : p0 ≠ 0) (hp1 : p1 ≠ 0)
+    (hb : d0 ≤ U128_MAX ∧ d1 ≤ U128_MAX ∧ p0 ≤ U128_MAX ∧ p1 ≤ U128_MAX) :
+    assertSlippageTolerance (some tol) [⟨n0, d0⟩, ⟨n1, d1⟩] [⟨n0, p0⟩, ⟨n1, p1⟩] .cp =
+      if d0 * ONE18 / d1 * (ONE18 - tol) / ONE18 > p0 * ONE18 / p1 then .error .slippage
+      else if d1 * ONE18 / d0 * (ONE18 - tol) / ONE18 > p1 * ONE18 / p0 then .error .slippage
+      else .ok [⟨n0, p0⟩, ⟨n1, p1⟩] := by
+  obtain ⟨hb0, hb1, hb2, hb3⟩ := hb
+  unfold assertSlippageTolerance
+  have hany : ([⟨n0, p0⟩, ⟨n1, p1⟩] : List Coin).any (·.amount == 0) = false := by
+    simp [hp0, hp1]
+  rw [hany, sortCoins_pair hlt]
+  have hm (x : Nat) (hx : x ≤ U256_MAX) : x * (ONE18 - tol) / ONE18 ≤ U256_MAX :=
+    Nat.le_trans (mul_div_le_of_le (Nat.sub_le _ _)) hx
+  simp only [Bool.false_eq_true, if_false, if_neg (Nat.not_lt.2 ht), List.map_cons, List.map_nil,
+    List.length_cons, List.length_nil]
+  have e0 : ∀ a b : Nat, [a, b][0]! = a := fun _ _ => rfl
+  have e1 : ∀ a b : Nat, [a, b][1]! = b := fun _ _ => rfl
+  rw [if_neg (by decide)]
+  simp only [e0, e1]
+  have r1 := ratio_fits (d := d1) hb0
+  have r2 := ratio_fits (d := p1) hb2
+  have r3 := ratio_fits (d := d0) hb1
+  have r4 := ratio_fits (d := p0) hb3
+  rw [decFromRatio_eq hd1 r1, orPanic_okv, ok_bind, decMul_eq (hm _ r1), orPanic_okv, ok_bind,
+    decFromRatio_eq hp1 r2, orPanic_okv, ok_bind,
+    decFromRatio_eq hd0 r3, orPanic_okv, ok_bind, decMul_eq (hm _ r3), orPanic_okv, ok_bind,
+    decFromRatio_eq hp0 r4, orPanic_okv, ok_bind]
+  rfl
 
 /-- constant-product deposits: accepted ⇔ both deposit ratios, reduced by the tolerance, are at
     most the pool ratios (18-digit floors); `deps` and `pa` sorted by denom as the handler has them -/
@@ -73,7 +248,21 @@ theorem cp_deposit_accept_iff {tol d0 d1 p0 p1 : Nat} {n0 n1 : Denom} (hlt : n0 
     (∃ r, assertSlippageTolerance (some tol) [⟨n0, d0⟩, ⟨n1, d1⟩] [⟨n0, p0⟩, ⟨n1, p1⟩] .cp = .ok r) ↔
       d0 * ONE18 / d1 * (ONE18 - tol) / ONE18 ≤ p0 * ONE18 / p1 ∧
       d1 * ONE18 / d0 * (ONE18 - tol) / ONE18 ≤ p1 * ONE18 / p0 := by
-  sorry
+  rw [cp_check_eq hlt ht hd0 hd1 hp0 hp1 hb]
+  generalize d0 * ONE18 / d1 * (ONE18 - tol) / ONE18 = A
+  generalize d1 * ONE18 / d0 * (ONE18 - tol) / ONE18 = B
+  generalize p0 * ONE18 / p1 = P
+  generalize p1 * ONE18 / p0 = Q
+  constructor
+  · rintro ⟨r, h⟩
+    split at h
+    · simp at h
+    · split at h
+      · simp at h
+      · omega
+  · rintro ⟨h1, h2⟩
+    rw [if_neg (Nat.not_lt.2 h1), if_neg (Nat.not_lt.2 h2)]
+    exact ⟨_, rfl⟩
 
 /-- … hence monotone in the tolerance … -/
 theorem tolerance_monotone_deposit {t1 t2 d0 d1 p0 p1 : Nat} {n0 n1 : Denom} (hlt : n0 < n1)
@@ -81,20 +270,33 @@ theorem tolerance_monotone_deposit {t1 t2 d0 d1 p0 p1 : Nat} {n0 n1 : Denom} (hl
     (hb : d0 ≤ U128_MAX ∧ d1 ≤ U128_MAX ∧ p0 ≤ U128_MAX ∧ p1 ≤ U128_MAX)
     (h : ∃ r, assertSlippageTolerance (some t1) [⟨n0, d0⟩, ⟨n1, d1⟩] [⟨n0, p0⟩, ⟨n1, p1⟩] .cp = .ok r) :
     ∃ r, assertSlippageTolerance (some t2) [⟨n0, d0⟩, ⟨n1, d1⟩] [⟨n0, p0⟩, ⟨n1, p1⟩] .cp = .ok r := by
-  sorry
+  rw [cp_deposit_accept_iff hlt (Nat.le_trans hle ht) hd0 hd1 hp0 hp1 hb] at h
+  rw [cp_deposit_accept_iff hlt ht hd0 hd1 hp0 hp1 hb]
+  have hs : ONE18 - t2 ≤ ONE18 - t1 := Nat.sub_le_sub_left hle _
+  have mono (x : Nat) : x * (ONE18 - t2) / ONE18 ≤ x * (ONE18 - t1) / ONE18 :=
+    Nat.div_le_div_right (Nat.mul_le_mul_left _ hs)
+  exact ⟨Nat.le_trans (mono _) h.1, Nat.le_trans (mono _) h.2⟩
 
 /-- … and a deposit in exact pool proportion (d0 = k·p0, d1 = k·p1) passes under any valid tolerance -/
 theorem cp_exact_proportion_accepted {tol k p0 p1 : Nat} {n0 n1 : Denom} (hlt : n0 < n1)
     (ht : tol ≤ ONE18) (hk : k ≠ 0) (hp0 : p0 ≠ 0) (hp1 : p1 ≠ 0)
     (hb : k * p0 ≤ U128_MAX ∧ k * p1 ≤ U128_MAX) :
     ∃ r, assertSlippageTolerance (some tol) [⟨n0, k * p0⟩, ⟨n1, k * p1⟩] [⟨n0, p0⟩, ⟨n1, p1⟩] .cp = .ok r := by
-  sorry
+  have hkpos : 0 < k := Nat.pos_of_ne_zero hk
+  have l0 : p0 ≤ k * p0 := Nat.le_mul_of_pos_left _ hkpos
+  have l1 : p1 ≤ k * p1 := Nat.le_mul_of_pos_left _ hkpos
+  rw [cp_deposit_accept_iff hlt ht (Nat.mul_ne_zero hk hp0) (Nat.mul_ne_zero hk hp1) hp0 hp1
+    ⟨hb.1, hb.2, Nat.le_trans l0 hb.1, Nat.le_trans l1 hb.2⟩]
+  rw [Nat.mul_assoc k p0, Nat.mul_assoc k p1, Nat.mul_div_mul_left _ _ hkpos,
+    Nat.mul_div_mul_left _ _ hkpos]
+  exact ⟨mul_div_le_of_le (Nat.sub_le _ _), mul_div_le_of_le (Nat.sub_le _ _)⟩
 
 /-- F-11 witness: a stableswap deposit in exact pool proportion (+1 % of both reserves) is rejected
     under a 50 % tolerance — the check compares D_final/D_initial (≥ 1) with the tolerance (≤ 1) -/
 theorem ss_exact_proportion_rejected_witness :
     assertSlippageTolerance (some 500000000000000000) [⟨"a", 10000⟩, ⟨"b", 10000⟩]
       [⟨"a", 1000000⟩, ⟨"b", 1000000⟩] (.stable 100) = .error .slippage := by
-  sorry
+  -- plain `decide` gets stuck on `Nat.sqrt.iter` (well-founded, irreducible); the kernel evaluates it
+  decide +kernel
 
 end MantraDex.C13
